@@ -23,13 +23,21 @@ func (pt *WgCounter) Count() int {
 	return int(pt.count.Load())
 }
 
-func (pt *WgCounter) Done() {
-	if pt.count.Load() == 0 {
-		return
-	}
+// Done decrements the counter unless it is already zero and reports
+// whether this call was the one that brought it to zero.
+func (pt *WgCounter) Done() bool {
+	for {
+		count := pt.count.Load()
 
-	pt.count.Add(^uint32(0))
-	pt.wg.Done()
+		if count == 0 {
+			return false
+		}
+
+		if pt.count.CompareAndSwap(count, count-1) {
+			pt.wg.Done()
+			return count == 1
+		}
+	}
 }
 
 func (pt *WgCounter) Wait() {
